@@ -8,6 +8,7 @@ CONSTANTS
   CReplyKinds = {"ok", "407", "202", "none"}
   HostForms = {"name", "v4port", "v6", "v6port"}
   WithHist = TRUE
+  HostOvs = {"none", "same", "other"}
 CONSTRAINT Emit
 INVARIANTS InvRefines InvConnOnlyIfProven InvFailureCloses InvSuccessOpenNoDeadline InvProxyOnlyPath InvConnectOnce InvNon200Aborts InvWssInsideVerifiedTLS InvFirstHopHook
 CHECK_DEADLOCK FALSE
